@@ -153,14 +153,21 @@ def pub_state(inst, est):
             "num_steps": int(est.num_steps), "hom_deg": int(est.hom_deg), "flatten": bool(est.flatten)}
 
 
+def _feq(p, q):
+    """NaN-safe float equality (rel 1e-9): a non-finite value only equals itself."""
+    if p != p or q != q:
+        return p != p and q != q
+    return abs(p - q) <= 1e-9 * max(abs(p), abs(q), 1e-300)
+
+
 def same_state(a, b):
     for k in a:
         x, y = a[k], b[k]
         if isinstance(x, list):
-            if len(x) != len(y) or any(abs(p - q) > 1e-9 * max(abs(p), abs(q), 1e-300) for p, q in zip(x, y)):
+            if len(x) != len(y) or any(not _feq(p, q) for p, q in zip(x, y)):
                 return k
         elif isinstance(x, float) and isinstance(y, float):
-            if abs(x - y) > 1e-9 * max(abs(x), abs(y), 1e-300):
+            if not _feq(x, y):
                 return k
         elif x != y:
             return k
